@@ -32,8 +32,7 @@ theorem trimMatches_braces (s : List Char) : trimMatches ['(', ')'] s = trimBrac
 /-- the translated source equals the model on every input -/
 theorem from_operations_tie (s : List Char) :
     Gen.from_operations (α := α) s = fromOperations (α := α) s := by
-  rw [from_operations_eq, trimMatches_braces]
-  unfold fromOperations
+  simp only [Gen.from_operations, fromOperations, trimMatches_braces]
   generalize splitTerminator (trimBraces s) = ops
   match ops with
   | [] => rfl
@@ -44,13 +43,13 @@ theorem from_operations_tie (s : List Char) :
   | [r0, r1] =>
     simp only [List.length_cons, List.length_nil, Nat.lt_irrefl, if_false, List.zipIdx_cons,
       List.zipIdx_nil, List.map_cons, List.map_nil, Nat.zero_add]
-    rw [foldlM_pair, genRow_eq 0 (Or.inl rfl) _ rfl r0]
+    rw [foldlM_pair, loop2_eq 0 (Or.inl rfl) _ rfl r0]
     cases parseRow (α := α) r0 with
     | error e => rfl
     | ok abc =>
       obtain ⟨a, b, c⟩ := abc
       dsimp only
-      rw [genRow_eq 1 (Or.inr rfl) _ rfl r1]
+      rw [loop2_eq 1 (Or.inr rfl) _ rfl r1]
       cases parseRow (α := α) r1 with
       | error e => rfl
       | ok def_ =>
